@@ -1011,6 +1011,76 @@ theorem embed_dagger (m : Mono) (loc radixes : List Nat) (hm : m.Unitary) (hloc 
   · rw [← embed_mul (dagger m) m loc radixes hloc hlt hml hm.rows, mul_dagger_left m hm, hml,
       embed_identity, embed_length]
 
+/-! ### the builder keeps a monomial unitary -/
+theorem zip_all_eq_map (loc rs radixes : List Nat) (hl : loc.length = rs.length)
+    (h : (loc.zip rs).all (fun lr => radixes.getD lr.1 0 == lr.2) = true) :
+    rs = loc.map (fun q => radixes.getD q 0) := by
+  induction loc generalizing rs with
+  | nil =>
+    cases rs with
+    | nil => rfl
+    | cons r rs => simp at hl
+  | cons l loc ih =>
+    cases rs with
+    | nil => simp at hl
+    | cons r rs =>
+      rw [List.zip_cons_cons, List.all_cons, Bool.and_eq_true, beq_iff_eq] at h
+      rw [List.map_cons, ← ih rs (by simpa using hl) h.2, h.1]
+
+/-- what the argument checks of `apply_left`/`apply_right` give: exactly the guards of the `embed`
+theorems -/
+theorem Op.ok_spec (o : Op) (radixes : List Nat) (h : o.ok radixes = true) :
+    o.loc.Nodup ∧ (∀ q ∈ o.loc, q < radixes.length) ∧
+    o.radixes = o.loc.map (radixes.getD · 1) ∧
+    o.m.length = dim (o.loc.map (radixes.getD · 1)) := by
+  unfold Op.ok validLocation at h
+  simp only [Bool.and_eq_true, beq_iff_eq, List.all_eq_true, decide_eq_true_eq] at h
+  obtain ⟨⟨⟨⟨h1, h2⟩, h3⟩, h4⟩, h5⟩ := h
+  have hr : o.radixes = o.loc.map (radixes.getD · 1) := by
+    rw [zip_all_eq_map o.loc o.radixes radixes h3 (by simpa [List.all_eq_true] using h4)]
+    apply List.map_congr_left
+    intro q hq
+    exact getD_default_irrel radixes q 0 1 (h1 q hq)
+  exact ⟨(length_eraseDups_eq_iff_nodup o.loc).1 h2, h1, hr, by rw [h5, hr]⟩
+
+theorem applyOp_unitary (radixes : List Nat) (u : Mono) (o : Op) (hu : u.Unitary)
+    (hul : u.length = dim radixes) (hm : o.m.Unitary) (hok : o.ok radixes = true) :
+    (applyOp radixes u o).Unitary ∧ (applyOp radixes u o).length = dim radixes := by
+  obtain ⟨h1, h2, _, h4⟩ := Op.ok_spec o radixes hok
+  have hg : ∀ g : Mono, g.Unitary → g.length = o.m.length →
+      (embed g o.loc radixes).Unitary := fun g hg hgl =>
+    embed_unitary g o.loc radixes hg h1 h2 (by rw [hgl]; exact h4)
+  have hg' : (embed (if o.inverse then dagger o.m else o.m) o.loc radixes).Unitary := by
+    split
+    · exact hg _ (dagger_unitary _ hm) (dagger_length _)
+    · exact hg _ hm rfl
+  unfold applyOp
+  simp only
+  cases o.side with
+  | right =>
+    exact ⟨mul_unitary _ _ hg' hu (by rw [embed_length, hul]), by rw [mul_length, hul]⟩
+  | left =>
+    exact ⟨mul_unitary _ _ hu hg' (by rw [embed_length, hul]), by rw [mul_length, embed_length]⟩
+
+/-- `UnitaryBuilder`: if every apply passes the argument checks and every operand is a monomial
+unitary, no apply raises and `get_unitary()` is a monomial unitary of the full dimension -/
+theorem build_unitary (radixes : List Nat) (ops : List Op)
+    (hops : ∀ o ∈ ops, o.ok radixes = true ∧ o.m.Unitary) :
+    ∃ u, build radixes ops = some u ∧ u.Unitary ∧ u.length = dim radixes := by
+  rw [build_eq]
+  have : ∀ (u : Mono), u.Unitary → u.length = dim radixes →
+      ∃ v, ops.foldl (buildStep radixes) (some u) = some v ∧ v.Unitary ∧ v.length = dim radixes := by
+    induction ops with
+    | nil => intro u hu hul; exact ⟨u, rfl, hu, hul⟩
+    | cons o ops ih =>
+      intro u hu hul
+      obtain ⟨hok, hm⟩ := hops o (by simp)
+      rw [List.foldl_cons]
+      simp only [buildStep, hok, if_true]
+      obtain ⟨h1, h2⟩ := applyOp_unitary radixes u o hu hul hm hok
+      exact ih (fun o' ho' => hops o' (by simp [ho'])) _ h1 h2
+  exact this _ (identity_unitary _) (identity_length _)
+
 /-! ### non-vacuity, sanity checks, exactness of the guards -/
 section Examples
 /-- a controlled phase-ish monomial gate on two qubits -/
@@ -1134,6 +1204,16 @@ example : embed (dagger g6) [2, 0] [2, 2, 3] =
 /-- the group law needs a unitary -/
 example : ipower [(0, 0), (0, 0)] (1 + -1) ≠ mul (ipower [(0, 0), (0, 0)] 1) (ipower [(0, 0), (0, 0)] (-1)) := by
   decide
+example : ∃ u, build [2, 2, 3]
+    [{ side := .right, inverse := true, loc := [2, 0], radixes := [3, 2], m := g6 },
+     { side := .left, inverse := false, loc := [0, 1], radixes := [2, 2], m := g4 }] = some u ∧
+    u.Unitary ∧ u.length = dim [2, 2, 3] :=
+  build_unitary _ _ (by
+    intro o ho
+    simp only [List.mem_cons, List.not_mem_nil, or_false] at ho
+    rcases ho with rfl | rfl
+    · exact ⟨by decide, (wf_iff_unitary g6).1 (by decide)⟩
+    · exact ⟨by decide, (wf_iff_unitary g4).1 (by decide)⟩)
 end Examples
 
 end BqVerif.Kron
